@@ -46,6 +46,44 @@ func c16(r *Report) {
 	}
 
 	r.Guard("C16.R1", "whoever reads the snapshot body in har removes the transfer coding the snapshot keeps", func() {
+		// the body kept in a snapshot is the whole body that was read: what the view's writers
+		// are given is the ReadAll result itself, not a slice of it
+		if mvT := w.Named("messageview", "MessageView"); mvT != nil {
+			for _, mn := range []string{"SnapshotRequest", "SnapshotResponse"} {
+				sf := w.method(mvT, mn)
+				if sf == nil || sf.Blocks == nil {
+					continue
+				}
+				r.Touch(sf)
+				n, whole := 0, true
+				for _, c := range calls(sf) {
+					cc := c.Common()
+					nm := calleeName(c)
+					var arg ssa.Value
+					switch {
+					case nm == "(*bytes.Buffer).Write":
+						arg = cc.Args[1]
+					case cc.IsInvoke() && cc.Method.Name() == "Write" && len(cc.Args) == 1:
+						arg = cc.Args[0]
+					default:
+						continue
+					}
+					fromRead := anyIn(w.backSlice(arg, flowOpt{}), func(v ssa.Value) bool {
+						return isExtractOfCall(v, "io/ioutil.ReadAll") || isExtractOfCall(v, "io.ReadAll")
+					})
+					if !fromRead {
+						continue
+					}
+					n++
+					for _, l := range resolveAll(arg) {
+						if _, isSl := l.(*ssa.Slice); isSl {
+							whole = false
+						}
+					}
+				}
+				r.Decide("flow", "(*M/messageview.MessageView)."+mn+": the view holds the whole body that was read", n > 0 && whole, "the bytes ReadAll returned are written to the view as they are", "the body written into the snapshot is a slice of what was read (cut to a declared length): the logged content is shorter than the body the client receives", sf.Pos())
+			}
+		}
 		// (the index of the last transfer coding is in range)
 		lastIndexRule(r, "har")
 		for _, n := range []string{"NewRequest", "NewResponse", "postData", "Logger.RecordRequest", "Logger.RecordResponse", "PostData.UnmarshalJSON", "Content.UnmarshalJSON"} {
@@ -163,7 +201,7 @@ func c16(r *Report) {
 			stores := map[string][]ssa.Instruction{}
 			for _, in := range instrs(sn) {
 				if st, ok := in.(*ssa.Store); ok {
-					if fa, isFa := st.Addr.(*ssa.FieldAddr); isFa && fa.X == ssa.Value(sn.Params[0]) {
+					if fa, isFa := st.Addr.(*ssa.FieldAddr); isFa && isParamVal(fa.X, sn.Params[0]) {
 						stores[fieldObj(fa).Name()] = append(stores[fieldObj(fa).Name()], in)
 					}
 				}
@@ -588,59 +626,7 @@ func c16(r *Report) {
 			}
 			r.Decide("path", "M/har.cookies: Expires8601 is the formatted expiry of a cookie that has one", okExp, "Expires.Format(RFC3339) on the !IsZero() edge", "the expiry of a cookie is not recorded (or recorded for cookies without one, as year 1)", ck.Pos())
 		}
-		// post data is skipped exactly for a request without a body
-		{
-			okPD := false
-			var first *ssa.BinOp
-			for _, in := range instrs(pd) {
-				b, ok := in.(*ssa.BinOp)
-				if !ok || first != nil {
-					continue
-				}
-				if ld, isLd := b.X.(*ssa.UnOp); isLd {
-					if fa, isFa := ld.X.(*ssa.FieldAddr); isFa && fieldObj(fa).Name() == "ContentLength" {
-						first = b
-					}
-				}
-			}
-			if first != nil {
-				okPD = true
-				for _, cl := range []int64{-1, 0, 1, 9} {
-					for _, nte := range []int64{0, 1} {
-						out, okD := decide(first.Block(), func(v ssa.Value) (bool, bool) {
-							b, isB := v.(*ssa.BinOp)
-							if !isB {
-								return false, false
-							}
-							k, isK := constInt(b.Y)
-							if !isK {
-								return false, false
-							}
-							if ld, isLd := b.X.(*ssa.UnOp); isLd {
-								if fa, isFa := ld.X.(*ssa.FieldAddr); isFa && fieldObj(fa).Name() == "ContentLength" {
-									return cmpHolds(b.Op, cl, k), true
-								}
-							}
-							if c, isC := b.X.(*ssa.Call); isC {
-								if bi, isBi := c.Call.Value.(*ssa.Builtin); isBi && bi.Name() == "len" {
-									return cmpHolds(b.Op, nte, k), true
-								}
-							}
-							return false, false
-						})
-						if !okD || out == nil {
-							okPD = false
-							continue
-						}
-						_, skipped := out.Instrs[len(out.Instrs)-1].(*ssa.Return)
-						if skipped != (cl <= 0 && nte == 0) {
-							okPD = false
-						}
-					}
-				}
-			}
-			r.Decide("path", "M/har.postData: post data is omitted exactly for a request without a body", okPD, "truth table over ContentLength {-1,0,1,9} x len(TransferEncoding) {0,1}: skip iff length <= 0 and no transfer coding", "the no-body test has another truth table: a chunked upload (length -1) or a body with a known length is logged without post data, or an empty request gets one", pd.Pos())
-		}
+		postDataPresenceRule(r, pd)
 	})
 
 	r.Guard("C16.R2", "list conversions carry nothing from one element to the next", func() {
@@ -745,6 +731,29 @@ func c16(r *Report) {
 					okPol = false
 				}
 			}
+			// what is compared is the Content-Type header as the message carries it (a parser in
+			// between turns a header it rejects into the empty string, which matches nothing)
+			rawCT := false
+			parsed := false
+			for _, g := range r.W.staticReach(pred) {
+				for _, c := range plainCalls(g, "strings.HasPrefix") {
+					sl := w.backSlice(c.Call.Args[0], flowOpt{Through: map[string]bool{"strings.ToLower": true, "strings.TrimSpace": true}, CallArg: true, Calls: true})
+					if anyIn(sl, func(v ssa.Value) bool {
+						hc, y := v.(*ssa.Call)
+						if !y || calleeName(hc) != "(net/http.Header).Get" {
+							return false
+						}
+						k, isK := constString(hc.Call.Args[1])
+						return isK && k == "Content-Type"
+					}) {
+						rawCT = true
+					}
+					if anyIn(sl, func(v ssa.Value) bool { return isExtractOfCall(v, "mime.ParseMediaType") || isCallValue(v, "mime.ParseMediaType") }) {
+						parsed = true
+					}
+				}
+			}
+			r.Decide("flow", "M/har."+oc.ctor+": the prefix is matched against the Content-Type header itself", rawCT && !parsed, "HasPrefix(lower(Header.Get(\"Content-Type\")), ...)", "the content type is run through a parser first: a header the parser rejects (duplicate parameters, a list) becomes empty and matches no prefix, so opt-in lists drop bodies they should capture and skip lists log bodies they should skip", pred.Pos())
 			r.Decide("path", "M/har."+oc.ctor+": the predicate answers "+fmt.Sprint(oc.hit)+" for a listed content type and "+fmt.Sprint(!oc.hit)+" otherwise", okPol && nret >= 2, "the return behind the prefix match is "+fmt.Sprint(oc.hit)+", the other one "+fmt.Sprint(!oc.hit), "the option's predicate is inverted (or constant): bodies of the listed types are skipped and the others captured, or the list is ignored", pred.Pos())
 		}
 		lg := w.Named("har", "Logger")
@@ -791,7 +800,7 @@ func c16(r *Report) {
 		// NewRequest hands its flag to postData
 		okF := false
 		for _, c := range plainCalls(nreq, "M/har.postData") {
-			if c.Call.Args[0] == ssa.Value(nreq.Params[0]) && c.Call.Args[1] == ssa.Value(nreq.Params[1]) {
+			if isParamVal(c.Call.Args[0], nreq.Params[0]) && isParamVal(c.Call.Args[1], nreq.Params[1]) {
 				okF = true
 			}
 		}
@@ -1064,5 +1073,70 @@ func headerMapKeysRule(r *Report) {
 			}
 		}
 	}
+	ndel := 0
+	for _, in := range instrs(mp) {
+		if _, isD := isBuiltinCall(in, "delete"); isD {
+			ndel++
+		}
+	}
+	r.Decide("flow", "(*M/proxyutil.Header).Map removes nothing from the copy", ndel == 0, "no delete in Map", "Map deletes entries of the copied header map (for instance a raw Content-Length: 0 when the message field says zero): a header the message carries is missing from the log", mp.Pos())
 	r.Decide("flow", "(*M/proxyutil.Header).Map copies the message's header entries under their own names", n > 0 && okKeys, "the raw copy stores under the range key itself", "the raw header copy stores under a transformed key (canonicalised, lower-cased): entries whose names differ only in case collapse into one and lose values, and names are logged in a spelling the message does not have", mp.Pos())
+}
+
+// postDataPresenceRule: post data is omitted exactly for a request without a
+// body (truth table over ContentLength and the number of transfer codings). A
+// body-less request must not be snapshotted either: the snapshot replaces
+// http.NoBody by a reader and the request goes out chunked (C15). Shared by
+// C16.R2 and C15.R1.
+func postDataPresenceRule(r *Report, pd *ssa.Function) {
+	okPD := false
+	var first *ssa.BinOp
+	for _, in := range instrs(pd) {
+		b, ok := in.(*ssa.BinOp)
+		if !ok || first != nil {
+			continue
+		}
+		if ld, isLd := b.X.(*ssa.UnOp); isLd {
+			if fa, isFa := ld.X.(*ssa.FieldAddr); isFa && fieldObj(fa).Name() == "ContentLength" {
+				first = b
+			}
+		}
+	}
+	if first != nil {
+		okPD = true
+		for _, cl := range []int64{-1, 0, 1, 9} {
+			for _, nte := range []int64{0, 1} {
+				out, okD := decide(first.Block(), func(v ssa.Value) (bool, bool) {
+					b, isB := v.(*ssa.BinOp)
+					if !isB {
+						return false, false
+					}
+					k, isK := constInt(b.Y)
+					if !isK {
+						return false, false
+					}
+					if ld, isLd := b.X.(*ssa.UnOp); isLd {
+						if fa, isFa := ld.X.(*ssa.FieldAddr); isFa && fieldObj(fa).Name() == "ContentLength" {
+							return cmpHolds(b.Op, cl, k), true
+						}
+					}
+					if c, isC := b.X.(*ssa.Call); isC {
+						if bi, isBi := c.Call.Value.(*ssa.Builtin); isBi && bi.Name() == "len" {
+							return cmpHolds(b.Op, nte, k), true
+						}
+					}
+					return false, false
+				})
+				if !okD || out == nil {
+					okPD = false
+					continue
+				}
+				_, skipped := out.Instrs[len(out.Instrs)-1].(*ssa.Return)
+				if skipped != (cl <= 0 && nte == 0) {
+					okPD = false
+				}
+			}
+		}
+	}
+	r.Decide("path", "M/har.postData: post data is omitted exactly for a request without a body", okPD, "truth table over ContentLength {-1,0,1,9} x len(TransferEncoding) {0,1}: skip iff length <= 0 and no transfer coding", "the no-body test has another truth table: a chunked upload (length -1) or a body with a known length is logged without post data, or an empty request gets one", pd.Pos())
 }
